@@ -66,7 +66,7 @@ func runC12(c *core.Ctx) {
 func ruleBusLocks(c *core.Ctx, lc *core.LockCache) {
 	const rule = "C12.locks"
 	var fns []*ssa.Function
-	for _, fn := range c.RepoFuncs("bus") {
+	for _, fn := range append(c.RepoFuncs("bus"), c.RepoFuncs(core.WitnessDirName)...) {
 		if c.IsTestFile(fn) {
 			continue
 		}
